@@ -103,6 +103,7 @@ func init() {
 				b.setS(&is.T, b.bit(4), "InSitu.T")
 				args = append(args, is)
 			}
+			args = b.hold(args)
 			b.run = func() error { x, err := backSubstitution.Run(A, bv, args...); b.ret(x); return err }
 		}})
 
@@ -136,6 +137,7 @@ func init() {
 				b.setS(&is.T, b.bit(6), "InSitu.T")
 				args = append(args, is)
 			}
+			args = b.hold(args)
 			b.run = func() error { l, d, err := cholesky.Run(a, args...); b.ret(l, d); return err }
 		}})
 
@@ -167,6 +169,7 @@ func init() {
 				b.setS(&is.Cholesky.T, b.bit(5), "InSitu.Cholesky.T")
 				args = append(args, is)
 			}
+			args = b.hold(args)
 			b.run = func() error { d, err := determinant.Run(a, args...); b.ret(d); return err }
 		}})
 
@@ -211,6 +214,7 @@ func init() {
 				}
 				args = append(args, is)
 			}
+			args = b.hold(args)
 			b.run = func() error { ev, evec, err := eigensystem.Run(a, args...); b.ret(ev, evec); return err }
 		}})
 
@@ -264,6 +268,7 @@ func init() {
 				args = append(args, gaussJordan.Submatrix{Value: sub})
 			}
 			args = append(args, gaussJordan.UpperTriangular{Value: b.bit(1)})
+			args = b.hold(args)
 			b.run = func() error { return gaussJordan.Run(a, x, bv, args...) }
 		}})
 
@@ -321,6 +326,7 @@ func init() {
 				b.setM(&is.R, b.bit(2), "InSitu.R", n, m)
 				args = append(args, *is) // gramSchmidt takes its InSitu by value
 			}
+			args = b.hold(args)
 			b.run = func() error { q, r, err := gramSchmidt.Run(a, args...); b.ret(q, r); return err }
 		}})
 
@@ -358,6 +364,7 @@ func init() {
 				b.setV(&is.T4, b.bit(11), "InSitu.T4", n)
 				args = append(args, is)
 			}
+			args = b.hold(args)
 			b.run = func() error { h, u, err := hessenbergReduction.Run(a, args...); b.ret(h, u); return err }
 		}})
 
@@ -429,6 +436,7 @@ func init() {
 				b.setV(&is.T4, b.bit(14), "InSitu.T4", m)
 				args = append(args, is)
 			}
+			args = b.hold(args)
 			b.run = func() error { h, u, v, err := householderBidiagonalization.Run(a, args...); b.ret(h, u, v); return err }
 		}})
 
@@ -467,6 +475,7 @@ func init() {
 				b.setV(&is.T4, b.bit(13), "InSitu.T4", n)
 				args = append(args, is)
 			}
+			args = b.hold(args)
 			b.run = func() error { h, u, err := householderTridiagonalization.Run(a, args...); b.ret(h, u); return err }
 		}})
 
@@ -519,6 +528,7 @@ func init() {
 				}
 				args = append(args, is)
 			}
+			args = b.hold(args)
 			b.run = func() error { r, err := matrixInverse.Run(a, args...); b.ret(r); return err }
 		}})
 
@@ -552,7 +562,8 @@ func init() {
 				n, k := b.s.N, b.s.Kind
 				a := b.inMat(k, n, n, "matrix")
 				b.mat("matrix", "input", a)
-				b.run = func() error { _, err := e.f(a); return err }
+				args := b.hold(nil)
+				b.run = func() error { r, err := e.f(a, args...); b.ret(r); return err }
 			}})
 	}
 
@@ -644,6 +655,7 @@ func init() {
 				}
 				args = append(args, is)
 			}
+			args = b.hold(args)
 			b.run = func() error { h, u, err := qrAlgorithm.Run(a, args...); b.ret(h, u); return err }
 		}})
 
@@ -707,6 +719,7 @@ func init() {
 				}
 				args = append(args, is)
 			}
+			args = b.hold(args)
 			b.run = func() error { h, u, v, err := svd.Run(a, args...); b.ret(h, u, v); return err }
 		}})
 }
